@@ -56,12 +56,13 @@ func (p c09Prop) Run(in interface{}) Sx {
 	}
 	return p.s.Run(*c.Sess)
 }
-func (p c09Prop) Input(in interface{}) Sx {
+func (p c09Prop) Input(in interface{}) Sx { return p.InputObs(in, L()) }
+func (p c09Prop) InputObs(in interface{}, obs Sx) Sx {
 	c := in.(c09Case)
 	if c.Recv != nil {
 		return L(Z(0), p.r.Input(*c.Recv))
 	}
-	return L(Z(1), p.s.Input(*c.Sess))
+	return L(Z(1), p.s.InputObs(*c.Sess, obs))
 }
 func (p c09Prop) Oracle(in interface{}, obs Sx) (string, string) {
 	c := in.(c09Case)
